@@ -600,6 +600,9 @@ fn field_orders(outdir: &str) {
         } }
     }
     std::fs::write(format!("{}/field_orders.json", outdir), serde_json::to_string_pretty(&all).unwrap()).unwrap();
+    // the same wire orders as a Lean table (Gen/Fields.lean), read by Props/C03 `C03_field_orders_are_monero` / `C03_spec_follows_field_orders`
+    let rows: Vec<String> = all.iter().map(|x| format!("(\"{}\", [{}])", x["type"].as_str().unwrap_or(""), x["wire_order"].as_array().map(|a| a.iter().map(|f| format!("\"{}\"", f.as_str().unwrap_or(""))).collect::<Vec<_>>().join(", ")).unwrap_or_default())).collect();
+    std::fs::write(format!("{}/Fields.lean", outdir), format!("/-! GENERATED by `harness extract` from /repo's current source on every run — do not edit. -/\nnamespace Gen\n/-- every `impl_consensus_encoding!(T, f1, …)` invocation of the current source: type ↦ its fields in wire order -/\ndef fieldOrders : List (String × List String) := [{}]\n/-- wire order of the fields of `ty` (`[]` if the type has no `impl_consensus_encoding!`) -/\ndef fieldOrder (ty : String) : List String := (fieldOrders.lookup ty).getD []\nend Gen\n", rows.join(", "))).unwrap();
 }
 
 pub const PANIC_FILES: [&str; 13] = ["src/consensus/encode.rs", "src/consensus/endian.rs", "src/blockdata/transaction.rs", "src/blockdata/block.rs", "src/util/ringct.rs", "src/util/address.rs", "src/util/key.rs",
